@@ -334,6 +334,11 @@ def eval_case(c):
         compare("sensitivity(theta%s)" % ("" if meth is None else ", method='%s'" % meth),
                 run("sensitivity", lambda: obj.sensitivity(th, method=meth)), want)
         compare("gradient(theta)", run("gradient", lambda: obj.gradient(th)), want)
+        th2 = np.array(th, dtype=float) * 1.06 + 0.011
+        with quiet():
+            want2, agree2 = fd_grad(lambda v: float(obj.cost(v)), th2)
+        if agree2 <= FD_AGREE * (1 + np.abs(want2).max()):
+            compare("second evaluation sensitivity(theta')", run("sensitivity", lambda: obj.sensitivity(th2, method=meth)), want2)
         compare("sensitivity(theta, full_output=True)[0]", run("sensitivity(full_output)", lambda: obj.sensitivity(th, full_output=True)[0]), want)
         J = run("jac", lambda: obj.jac(th))
         if J is not None:
@@ -358,6 +363,14 @@ def eval_case(c):
         compare("sensitivityIV(theta_x0%s)" % ("" if meth is None else ", method='%s'" % meth),
                 run("sensitivityIV", lambda: obj.sensitivityIV(v, method=meth)), want)
         compare("sensitivityIV(theta_x0, full_output=True)[0]", run("sensitivityIV(full_output)", lambda: obj.sensitivityIV(v, full_output=True)[0]), want)
+        # a second evaluation of the SAME object at other free values (what every optimiser does): nothing may be kept
+        # from the first one
+        v2 = np.array(v, dtype=float) * 1.07 + 0.013
+        with quiet():
+            obj.costIV(v2)
+            want2, agree2 = fd_grad(lambda u: float(obj.costIV(u)), v2)
+        if agree2 <= FD_AGREE * (1 + np.abs(want2).max()):
+            compare("second evaluation sensitivityIV(theta_x0')", run("sensitivityIV", lambda: obj.sensitivityIV(v2, method=meth)), want2)
     return out, info
 
 
